@@ -1,4 +1,4 @@
-import ActixModel.Proofs.DispTimersF
+import ActixModel.Proofs.DispTimersG
 /-
 C06 — HTTP/1 connections are time-bounded (slow head, keep-alive, shutdown, drain).
 Model: `ActixModel/Model/DispTimers.lean` (one event = one `Dispatcher::poll` with the answers of
@@ -190,6 +190,27 @@ theorem C06_keepalive_expiry {c : Cfg} {sig : Bool} {s : St} (h : Reach c sig s)
     (hsig : ¬ (s.graceful = true ∧ i.sig = true)) : (poll c s i).s.shutdown = true :=
   poll_ka_expiry c s i d (C06_invariant h) hc hk hd hsig
 
+/-- **C06_keepalive (a request that arrives in time is served).**  Idle in keep-alive with deadline
+`d`; a complete request arrives and the poll that reads it happens before `d` (no graceful signal
+in that poll, connection not closing): the handler is called in that very poll. -/
+theorem C06_keepalive_in_time_served {c : Cfg} {sig : Bool} {s : St} (h : Reach c sig s) (i : In) (d : Nat)
+    (rest : List Tok) (hc : s.complete = false) (hk : s.kaTimer = .active d) (hd : i.now < d)
+    (hsh : s.shutdown = false) (hl : s.linger = false) (hsig : ¬ (s.graceful = true ∧ i.sig = true))
+    (hhead : s.headTimer.fired i.now = false)
+    (hbuf : s.readBuf = []) (hsock : s.sockIn = []) (hrd : s.readDisc = false) (hcp : s.codecPayload = false)
+    (harr : i.arrive = .G :: rest) :
+    Out.call s.nextRid .k ∈ (poll c s i).outs :=
+  poll_ka_in_time c s i d rest (C06_invariant h) hc hk hd hsh hl hsig hhead hbuf hsock hrd hcp harr
+
+/-- non-vacuity of `C06_keepalive_in_time_served` / `C06_keepalive_expiry`: after one served `GET`
+the state is idle with the keep-alive timer running until 2000 -/
+example :
+    let c : Cfg := { T := 1000, ka := .ms 2000, D := 0, halfClosed := true }
+    let s := (poll c (St.init c false) { now := 0, cached := 0, arrive := [.G] }).s
+    s.complete = false ∧ s.kaTimer = .active 2000 ∧ s.shutdown = false ∧ s.linger = false ∧
+      s.headTimer.fired 1999 = false ∧ s.readBuf = [] ∧ s.sockIn = [] ∧ s.readDisc = false ∧
+      s.codecPayload = false ∧ s.graceful = false := by decide
+
 /-- the keep-alive timer runs only while the connection is idle: nothing in flight, nothing queued,
 request body fully read, not draining -/
 theorem C06_keepalive_timer_means_idle {c : Cfg} {sig : Bool} {s : St} (h : Reach c sig s)
@@ -227,6 +248,30 @@ theorem C06_graceful_inflight_answered (c : Cfg) (i : In) (s : St) (rid : Nat) (
     simp [sendResponse, hdr, hf.2.2.2.2.1]
   · refine ⟨[], by simp [respStep, hst, hr], ?_⟩
     simp [sendResponse, hdr, hf.2.2.2.2.1]
+
+/-! ### a reading of sentence 3 that is *not* true of the code
+
+Full statement (not claimed): "from entering SHUTDOWN **or LINGER** until the connection future is
+complete at most `D + skew` elapses".
+```
+theorem C06_close_within_one_timeout : … (poll …).s.linger = true at time t → complete by t + D + skew
+```
+It holds for SHUTDOWN (`C06_shutdown_bounded`) but not for LINGER: lingering waits up to `D` for the
+peer to finish its request, and the socket shutdown that follows gets its own `D`
+(`C06_linger_bounded`: `2 D`).  This is the designed behaviour (`lingering_timeout_uses_graceful_shutdown`
+in the dispatcher's own tests), recorded here so that the bound claimed is the true one. -/
+
+/-- witness: `D = 1000`, early response to a POST at t = 0 (LINGER until 1000), linger timeout at
+1000 (SHUTDOWN, timer until 2000), `poll_shutdown` pending: still alive at 1999 > 0 + D + 500 -/
+theorem witness_linger_then_shutdown_takes_two_timeouts :
+    let c : Cfg := { T := 0, ka := .off, D := 1000, halfClosed := true }
+    let s1 := (poll c (St.init c false) { now := 0, cached := 0, arrive := [.P], sd := false }).s
+    let s2 := (poll c s1 { now := 0, cached := 0, sd := false }).s
+    let s3 := (poll c s2 { now := 1000, cached := 1000, sd := false }).s
+    let s4 := (poll c s3 { now := 1999, cached := 1500, sd := false }).s
+    let s5 := (poll c s4 { now := 2000, cached := 2000, sd := false }).s
+    s2.linger = true ∧ s2.sdTimer = .active 1000 ∧ s3.linger = false ∧ s3.shutdown = true ∧
+      s3.sdTimer = .active 2000 ∧ s4.complete = false ∧ s5.complete = true := by decide
 
 /-- non-vacuity: `GET` with `Connection: close` at t = 0, transport whose `poll_shutdown` pends:
 the hypotheses of `C06_shutdown_bounded` hold (this is the F14 replay) -/
